@@ -172,6 +172,45 @@ def doSLimit (off lim spec : String) : String :=
   | some o, some l, some pulls => joinOr "-" "," ((streamLimit o l pulls).map toString)
   | _, _, _ => "bad-op"
 
+
+def parseRange (i : Nat) (s : String) : Option TRange :=
+  match s.splitOn ":" with
+  | [a, b] => match a.toInt?, b.toInt? with
+    | some lo, some hi => some { id := i + 1, lo := lo, hi := hi }
+    | _, _ => none
+  | _ => none
+
+def doDJP (dir spec : String) : String :=
+  match ((spec.splitOn ",").zipIdx).mapM (fun (s, i) => parseRange i s) with
+  | some rs => joinOr "-" "/" ((disjointGroups TRange.rg rs (dir != "desc")).map fun g => ",".intercalate (g.map fun r => toString r.id))
+  | none => "bad-op"
+
+def parseRow (s : String) : Option (Nat × Int) :=
+  match s.splitOn ":" with
+  | [a, b] => match a.toNat?, b.toInt? with
+    | some sid, some ts => some (sid, ts)
+    | _, _ => none
+  | _ => none
+
+def doSQuery (dir lo hi sids spec : String) : String :=
+  match lo.toInt?, hi.toInt?, parseIds sids, (spec.splitOn "|").mapM (fun p => (p.splitOn ",").mapM parseRow) with
+  | some a, some b, some ss, some parts =>
+    let ps := (parts.zipIdx).map fun (rows, i) => ({ id := i + 1, rows := rows } : SPart)
+    joinOr "-" "," ((streamTsQuery ps ss a b (dir != "desc")).map toString)
+  | _, _, _, _ => "bad-op"
+
+def parseKV (s : String) : Option (String × Int) :=
+  match s.splitOn ":" with
+  | [n, v] => v.toInt?.map fun x => (n, x)
+  | _ => none
+
+def doMIQ (dir kind spec : String) : String :=
+  match (spec.splitOn "|").mapM (fun p => (p.splitOn ",").mapM parseKV) with
+  | some segs =>
+    joinOr "-" "," ((indexSortQuery (dir == "desc") segs).map fun (n, v) =>
+      if kind == "fld" then s!"{n}:{v}:{v * 3 + 1}" else s!"{n}:{v}")
+  | none => "bad-op"
+
 def handle (line : String) : String :=
   match words line with
   | ["sort", dir, spec] => doSort dir spec
@@ -183,6 +222,9 @@ def handle (line : String) : String :=
   | ["topq", n, kind, vals] => doTopQ n kind vals
   | ["mqr", ord, dir, lo, hi, sids, spec] => doMQR ord dir lo hi sids spec
   | ["tsidx", dir, mbs, mt, spec] => doTSidx dir mbs mt spec
+  | ["djp", _, dir, spec] => doDJP dir spec
+  | ["squery", dir, lo, hi, _, sids, spec] => doSQuery dir lo hi sids spec
+  | ["miq", dir, kind, spec] => doMIQ dir kind spec
   | ["slimit", _, off, lim, spec] => doSLimit off lim spec
   | _ => "bad-op"
 
